@@ -18,16 +18,14 @@ func (s *Store) snapshotPrevious(ss Snapshot) (Snapshot, error) {
 		return nil, fmt.Errorf("snapshot not a footer")
 	}
 
-	slocs, _ := footer.segmentLocs()
+	footer.segmentLocs()
 	defer footer.DecRef()
 
-	if len(slocs) <= 0 {
-		return nil, nil
-	}
-
-	mref := slocs[0].mref
+	// The footer's own segments or, when only child collections
+	// hold data, those of a child footer tell us the file.
+	mref := footer.mmapRef()
 	if mref == nil {
-		return nil, fmt.Errorf("footer mref nil")
+		return nil, nil
 	}
 
 	mref.m.Lock()
